@@ -244,6 +244,19 @@ func mapKey(i int, kind string) string {
 	return "k" + strconv.Itoa(i)
 }
 
+// allSpecialKeys: with the special name pool every map of the vocabulary holds, next to its entry of interest, one
+// (minimal) entry under each of the special names: which names a case meets does not depend on the order of the cases
+func allSpecialKeys(m obj, kk string) {
+	if codecFlags.names != "special" || kk == "pathItem" || kk == "schemaOrStringsV" {
+		return
+	}
+	for _, k := range specialKeys {
+		if _, ok := m[k+"0"]; !ok {
+			m[k+"0"] = fill(minimalDoc(kk, ""), kk)
+		}
+	}
+}
+
 // pathKey: the key of a path item; with the special name pool it carries characters that need
 // escaping in a JSON pointer (and literal "~1" / "~0" sequences)
 func pathKey(kw string) string {
@@ -567,6 +580,7 @@ func valueFor(name, vt, cls string, wild bool) interface{} {
 		if cls == "map2" {
 			m[mapKey(2, kk)] = fill(minimalDoc(kk, ""), kk)
 		}
+		allSpecialKeys(m, kk)
 		return m
 	case "list":
 		l := []interface{}{fill(minimalDoc(kk, ""), kk)}
@@ -674,7 +688,9 @@ func build(c codecCase) (interface{}, string) {
 				outer = obj{respKey(e.Kw): cur}
 			} else {
 				_, kk := kidKind(vocab.VT[e.Kind][e.Kw])
-				outer[e.Kw] = obj{mapKey(1, kk): cur}
+				mm := obj{mapKey(1, kk): cur}
+				allSpecialKeys(mm, kk)
+				outer[e.Kw] = mm
 			}
 		case "listelem":
 			outer[e.Kw] = []interface{}{cur}
